@@ -127,7 +127,7 @@ pub fn judge_c13(u: &UriCase, p: &Probe) -> Judge {
 
 pub fn run_c13(ctx: &Ctx) {
     ctx.set_rule("proptest-generated absolute target URIs built from components (scheme in {http,https,ipp,ipps}; optional user-info with marker tokens in user and password, percent-encoding, extra ':'; host reg-name / IPv4 / bracketed IPv6; port absent / 1-65535 / leading zeros; path empty, '/', percent-encoded segments, ';', '//', dot segments; query with marker tokens, '?', '=', '@', '/'). Oracle: own splitter + component algebra + taint (no marker substring anywhere), idempotence, and the same for the printer-uri attribute and the encoded bytes of 11 request constructors/builders (each one evaluation). Non-trivial = URI has user-info or query and (non-reg-name host or explicit port or percent-encoded path); distinct by URI string.");
-    let (shards, per) = ctx.tier.pick((16, 2500), (16, 80000));
+    let (shards, per) = ctx.tier.pick((16, 12000), (16, 200000));
     run_prop(ctx, "canonicalize", shards, per, uri_case, judge_c13, |u| u.to_json());
 }
 
@@ -222,7 +222,7 @@ pub fn judge_c14(u: &UriCase, p: &Probe) -> Judge {
 pub fn run_c14(ctx: &Ctx) {
     crate::c11::use_empty_trust_store();
     ctx.set_rule("proptest-generated target URIs (as C13) mapped through the hook verif_transport_url (the private function both clients call); result split by the harness's own splitter: ipp->http, ipps->https, port = explicit port else 631 for both schemes, user-info/host/path(empty==/)/query unchanged byte-for-byte; http/https unchanged. Non-trivial = scheme ipp/ipps and (IPv6 host or user-info or no port or query); distinct by URI string. Plus live cases per run (40 quick / 400 thorough) through a loopback HTTP server with explicit ports, tying the hooked function to what both clients really dial (request line, Host header).");
-    let (shards, per) = ctx.tier.pick((16, 2500), (16, 80000));
+    let (shards, per) = ctx.tier.pick((16, 25000), (16, 400000));
     run_prop(ctx, "transport-url", shards, per, uri_case, judge_c14, |u| u.to_json());
     // live: what both clients really dial for ipp:// targets with explicit ports (request line, Host)
     crate::c11::live_c14(ctx, ctx.tier.pick(40, 400));
